@@ -271,7 +271,7 @@ func c10Stream(o *out, r *rng, thorough bool) {
 func c11Stream(o *out, r *rng, thorough bool) {
 	dirNames := []string{"PS3ISO", "ps3iso", "Ps3IsO", "GAMES", "PS3ISO2"}
 	exts := []string{".iso", ".ISO", ".IsO", ".bin", ".iso.bak", ""}
-	keySits := []string{"none", "adjacent", "redkey", "both", "bad-adjacent", "bad-redkey", "short-adjacent", "dir-adjacent"}
+	keySits := []string{"none", "adjacent", "redkey", "both", "bad-adjacent", "bad-redkey", "short-adjacent", "dir-adjacent", "redkey-is-file", "long-name"}
 	marks := []string{"none", "enc", "dec"}
 	lens := []int64{0x1000, 0x106f, 0x1070, 0x1071, 0x3000, 0x8800}
 	count := 0
@@ -289,7 +289,12 @@ func c11Stream(o *out, r *rng, thorough bool) {
 						if nested {
 							base += "/sub dir"
 						}
-						imgPath := base + "/Game Name" + ext
+						gname := "Game Name"
+						if ks == "long-name" {
+							// 255 bytes: the key file's name beside it (and under REDKEY) cannot exist at all
+							gname = strings.Repeat("L", 255-len(ext))
+						}
+						imgPath := base + "/" + gname + ext
 						regs := []refRegion{{0, 1}, {3, uint32(ln/2048) + 1}}
 						n := tnode{path: imgPath, kind: 'f', size: ln, seed: int64(r.intn(250)), mtime: genMtime(r)}
 						n.overlays = []overlay{{0, tableBytes(regs)}}
@@ -317,7 +322,7 @@ func c11Stream(o *out, r *rng, thorough bool) {
 						if nested {
 							redBase += "/sub dir"
 						}
-						redPath := redBase + "/" + strings.TrimSuffix("Game Name"+ext, filepathExt("Game Name"+ext)) + ".dkey"
+						redPath := redBase + "/" + strings.TrimSuffix(gname+ext, filepathExt(gname+ext)) + ".dkey"
 						addRed := func(nd tnode) {
 							t.add(tnode{path: "/REDKEY", kind: 'd', mtime: genMtime(r)})
 							if nested {
@@ -347,6 +352,14 @@ func c11Stream(o *out, r *rng, thorough bool) {
 							t.add(short)
 						case "dir-adjacent":
 							t.add(tnode{path: stem + ".dkey", kind: 'd', mtime: genMtime(r)})
+						case "redkey-is-file":
+							// no key can live below a regular file: the image is simply keyless
+							t.add(tnode{path: "/REDKEY", kind: 'f', size: 40, seed: 9, mtime: genMtime(r)})
+						case "long-name":
+							t.add(tnode{path: "/REDKEY", kind: 'd', mtime: genMtime(r)})
+							if nested {
+								t.add(tnode{path: redBase, kind: 'd', mtime: genMtime(r)})
+							}
 						}
 						// the harness's own decision table
 						isIso := strings.EqualFold(filepathExt(imgPath), ".iso")
